@@ -79,6 +79,9 @@ pub fn frames(region: &str) -> Vec<Frame> {
         v.push(d(Fcnt::Rel(1), Tamper::None, Some(1), 51, false, vec![]));
         v.push(d(Fcnt::Rel(1), Tamper::None, Some(1), 52, false, vec![]));
         v.push(d(Fcnt::Rel(1), Tamper::BadMic, Some(1), 52, false, vec![]));
+        // the limit counts the whole MACPayload, FOpts included: 7 + 1 (FOpts) + 1 + 50 = 59 fits, + 51 = 60 does not
+        v.push(d(Fcnt::Rel(1), Tamper::None, Some(1), 50, false, vec![0x06]));
+        v.push(d(Fcnt::Rel(1), Tamper::None, Some(1), 51, false, vec![0x06]));
     }
     v
 }
